@@ -12,6 +12,8 @@ def check(report, tier, only=None):
     obs = [('one_stream', lambda rep: rpcpath.ob_do_rpc(rep, PROP)), ('one_request', lambda rep: rpcpath.ob_do_handle(rep, PROP)),
            ('accept_loop', C06.ob_accept_loop), ('send_stream_drop', lambda rep: rpcpath.ob_send_stream_drop(rep, PROP)),
            ('send_stream_write', lambda rep: rpcpath.ob_send_stream_transparent(rep, PROP)),
+           # the caller is handed exactly what the RPC produced (no outcome is fabricated on the way out)
+           ('peer_call', C11.ob_peer_uses_layer),
            ('write_request', lambda rep: C07_e2.ob_write(rep, 'request')), ('write_response', lambda rep: C07_e2.ob_write(rep, 'response')),
            ('read_request', lambda rep: C07_e2.ob_read(rep, 'request')), ('read_response', lambda rep: C07_e2.ob_read(rep, 'response')), ('raw_header', C07_e2.ob_serde_fields),
            # the built-in middleware between the wire and the handler / caller only reads the request (it passes on exactly what was sent)
